@@ -45,7 +45,7 @@ def script(text, probe_src, acceptable, kwargs_src="{}"):
 
 
 def report(ctx, key, text, probe_src, acceptable, got, msg, extra_case=None, kwargs_src="{}"):
-    case = dict(text=text, acceptable=acceptable)
+    case = dict(text=text, acceptable=acceptable, probe_src=probe_src)  # the probe travels with the case
     if extra_case:
         case.update(extra_case)
     sc = script(text, probe_src, acceptable, kwargs_src)
@@ -63,6 +63,8 @@ def report(ctx, key, text, probe_src, acceptable, got, msg, extra_case=None, kwa
 
 
 def replay_text_case(case, probe, key, probe_src, msg="replayed case still fails"):
+    if case.get("probe_src"):
+        probe = compile_probe(case["probe_src"])
     if "warm" in case:
         run_probe(probe, case["warm"])
     got = run_probe(probe, case["text"])
